@@ -1305,6 +1305,8 @@ def eval_case(rep, spec, c, X, snaps, op, thorough, dcounter, only_derived=None)
             chosen = [dops[(dcounter[0] + j) % len(dops)] for j in range(2)]
             dcounter[0] += 2
         d = conts[0]
+        if not type(c).STATIC:  # a grow-only subject may legitimately hand out its own grow-only parts (columns, shallow copies)
+            chosen = [x for x in chosen if x[0] != 'grow_in_place']
         for dname, dfn in chosen:
             draised = None
             dres = None
